@@ -28,31 +28,30 @@ impl UnixStream {
     /// Various OS errors relating to permissions, and missing paths
     #[inline]
     pub fn connect(path: &UnixStr) -> Result<Self> {
-        Self::do_connect(path, None)
-    }
-
-    fn do_connect(path: &UnixStr, timeout: Option<Duration>) -> Result<Self> {
         // Validate the path before creating the socket, so that nothing has to be cleaned up
         let addr = SocketAddressUnix::try_from_unix(path)?;
+        // Connect in blocking mode. A non-blocking unix socket that finds the listener's backlog
+        // full fails with `EAGAIN`, and can't be polled for backlog space since an unconnected
+        // unix socket is always reported writable.
         let fd = rusl::network::socket(
             AddressFamily::AF_UNIX,
-            SocketOptions::new(
-                SocketType::SOCK_STREAM,
-                SocketFlags::SOCK_NONBLOCK | SocketFlags::SOCK_CLOEXEC,
-            ),
+            SocketOptions::new(SocketType::SOCK_STREAM, SocketFlags::SOCK_CLOEXEC),
             0,
         )?;
-        if let Err(e) = sock_nonblock_op_poll_if_not_ready(
-            fd,
-            Errno::EAGAIN,
-            PollEvents::POLLOUT,
-            timeout,
-            |sock| rusl::network::connect_unix(sock, &addr),
-        ) {
-            let _ = rusl::unistd::close(fd);
-            return Err(e);
+        loop {
+            match rusl::network::connect_unix(fd, &addr) {
+                Ok(()) => break,
+                Err(e) if e.code == Some(Errno::EINTR) => {}
+                Err(e) => {
+                    let _ = rusl::unistd::close(fd);
+                    return Err(e.into());
+                }
+            }
         }
-        Ok(Self(OwnedFd(fd)))
+        let sock = Self(OwnedFd(fd));
+        // The stream itself is non-blocking, as documented
+        sock.0.set_nonblocking()?;
+        Ok(sock)
     }
 
     /// Attempts to connect immediately without blocking, returns `Some` if successful, `None`
